@@ -50,8 +50,15 @@ func genApp(t *rapid.T) AppCase {
 	var cs AppCase
 	cs.EvalIn = hexBytes(t, 4, "evalin")
 	n := rapid.IntRange(2, 4).Draw(t, "sessions")
+	prev := 0
 	for i := 0; i < n; i++ {
-		cs.Sessions = append(cs.Sessions, hexBytes(t, rapid.SampledFrom([]int{1, 2, 2, 3, 4, 4, 7, 8, 16}).Draw(t, "len"), "in"))
+		l := rapid.SampledFrom([]int{1, 2, 2, 3, 4, 4, 7, 8, 16}).Draw(t, "len")
+		if i > 0 && rapid.IntRange(0, 5).Draw(t, "plus64k") == 0 {
+			// the previous size plus 2^16 bits
+			l = prev + 8192
+		}
+		prev = l
+		cs.Sessions = append(cs.Sessions, hexBytes(t, l, "in"))
 	}
 	cs.Prune = rapid.Bool().Draw(t, "prune")
 	return cs
@@ -66,7 +73,7 @@ func hexBytes(t *rapid.T, n int, label string) string {
 }
 
 func hexVals(s string) ([]int, bool) {
-	if len(s)%2 != 0 || len(s) == 0 || len(s) > 64 {
+	if len(s)%2 != 0 || len(s) == 0 || len(s) > 70000 {
 		return nil, false
 	}
 	var res []int
